@@ -336,3 +336,93 @@ impl Check for C07 {
 
 #[allow(dead_code)]
 fn unused(_: SimpStrategy) {}
+
+// ---------------------------------------------------------------------------------------
+// the command `simplify` applies the portfolio and strategy it is asked for
+
+pub struct CliAgreement;
+
+#[derive(Clone, Debug)]
+pub struct CliCase {
+    pub formulas: Vec<fol::Formula>,
+    pub portfolio: usize,
+    pub strategy: usize,
+}
+
+impl Check for CliAgreement {
+    type Case = CliCase;
+    fn name(&self) -> &'static str {
+        "simplify-command"
+    }
+    fn shards(&self) -> usize {
+        8
+    }
+    fn shrink_steps(&self) -> usize {
+        200
+    }
+    fn cases(&self, tier: Tier) -> usize {
+        tier.pick(600, 12_000)
+    }
+    fn strategy(&self, _tier: Tier) -> BoxedStrategy<CliCase> {
+        let fc = fol_cfg();
+        (vec(prop_oneof![3 => g::guarded_formula(&fc), 1 => g::formula(&fc)], 1..4), 0usize..3, 0usize..3)
+            .prop_map(|(formulas, portfolio, strategy)| CliCase { formulas, portfolio, strategy })
+            .boxed()
+    }
+    fn rule(&self) -> String {
+        "theory of 1-3 random formulas (closed by the checker) x portfolio x strategy, given to `anthem simplify --portfolio P --strategy S`; oracle: the command prints exactly the theory obtained in-process by applying the rewrites of portfolio P (the lists the semantic part of this check evaluates) under strategy S to each formula; non-trivial = some formula is changed by the simplification; distinct by input + portfolio + strategy".into()
+    }
+    fn run(&self, case: &CliCase) -> Outcome {
+        let Some(bin) = crate::cli::anthem_bin() else {
+            return Outcome::skip("ANTHEM_BIN not set");
+        };
+        let portfolio = ops::PORTFOLIOS[case.portfolio];
+        let strategy = ops::STRATEGIES[case.strategy];
+        // the parser's image of the generated formulas
+        let mut input = fol::Theory { formulas: vec![] };
+        for f in &case.formulas {
+            let Ok(f0) = safe_print::formula(f, &Style::plain()).parse::<fol::Formula>() else {
+                return Outcome::skip("generated formula not accepted");
+            };
+            input.formulas.push(f0);
+        }
+        let text = input.to_string();
+        let expected = fol::Theory {
+            formulas: input.formulas.iter().cloned().map(|f| ops::simplify(f, portfolio, strategy)).collect(),
+        };
+        let r = crate::cli::run_env(&bin, &["simplify", "--portfolio", portfolio, "--strategy", strategy.name()], Some(&text), &[], std::time::Duration::from_secs(60));
+        if r.timed_out {
+            return Outcome::skip("the command did not finish within 60 s");
+        }
+        if r.code != Some(0) {
+            return Outcome::skip("the command refused its input (reported by C15/C16)");
+        }
+        if r.stdout.trim() != expected.to_string().trim() {
+            return Outcome::fail(
+                "command-differs-from-portfolio",
+                format!(
+                    "C07: `anthem simplify --portfolio {portfolio} --strategy {}` does not print what the portfolio's rewrites give in-process\n  input   : {text}\n  command : {}\n  expected: {expected}",
+                    strategy.name(),
+                    r.stdout
+                ),
+            );
+        }
+        Outcome::pass(expected != input, hash64(&format!("{text}|{portfolio}|{}", strategy.name())))
+            .label(format!("portfolio={portfolio}"))
+            .label(format!("strategy={}", strategy.name()))
+    }
+    fn describe(&self, case: &CliCase) -> Value {
+        json!({
+            "formulas": case.formulas.iter().map(|f| safe_print::formula(f, &Style::plain())).collect::<Vec<_>>(),
+            "portfolio": ops::PORTFOLIOS[case.portfolio],
+            "strategy": ops::STRATEGIES[case.strategy].name(),
+        })
+    }
+    fn from_replay(&self, j: &Value) -> Option<CliCase> {
+        Some(CliCase {
+            formulas: j["formulas"].as_array()?.iter().map(|x| x.as_str().and_then(|s| s.parse().ok())).collect::<Option<Vec<_>>>()?,
+            portfolio: ops::PORTFOLIOS.iter().position(|p| Some(*p) == j["portfolio"].as_str())?,
+            strategy: ops::STRATEGIES.iter().position(|p| Some(p.name()) == j["strategy"].as_str())?,
+        })
+    }
+}
